@@ -1,9 +1,15 @@
 Bind/Model.vo Bind/Model.glob Bind/Model.v.beautified Bind/Model.required_vo: Bind/Model.v 
 Bind/Model.vio: Bind/Model.v 
 Bind/Model.vos Bind/Model.vok Bind/Model.required_vos: Bind/Model.v 
+Bind/Proofs.vo Bind/Proofs.glob Bind/Proofs.v.beautified Bind/Proofs.required_vo: Bind/Proofs.v Bind/Model.vo
+Bind/Proofs.vio: Bind/Proofs.v Bind/Model.vio
+Bind/Proofs.vos Bind/Proofs.vok Bind/Proofs.required_vos: Bind/Proofs.v Bind/Model.vos
 Blocks/Model.vo Blocks/Model.glob Blocks/Model.v.beautified Blocks/Model.required_vo: Blocks/Model.v Generated/C16_OpcodeFlags.vo
 Blocks/Model.vio: Blocks/Model.v Generated/C16_OpcodeFlags.vio
 Blocks/Model.vos Blocks/Model.vok Blocks/Model.required_vos: Blocks/Model.v Generated/C16_OpcodeFlags.vos
+Blocks/Proofs.vo Blocks/Proofs.glob Blocks/Proofs.v.beautified Blocks/Proofs.required_vo: Blocks/Proofs.v Generated/C16_OpcodeFlags.vo Blocks/Model.vo
+Blocks/Proofs.vio: Blocks/Proofs.v Generated/C16_OpcodeFlags.vio Blocks/Model.vio
+Blocks/Proofs.vos Blocks/Proofs.vok Blocks/Proofs.required_vos: Blocks/Proofs.v Generated/C16_OpcodeFlags.vos Blocks/Model.vos
 Booleq/Model.vo Booleq/Model.glob Booleq/Model.v.beautified Booleq/Model.required_vo: Booleq/Model.v 
 Booleq/Model.vio: Booleq/Model.v 
 Booleq/Model.vos Booleq/Model.vok Booleq/Model.required_vos: Booleq/Model.v 
@@ -13,21 +19,36 @@ Booleq/Proofs.vos Booleq/Proofs.vok Booleq/Proofs.required_vos: Booleq/Proofs.v 
 Canon/Model.vo Canon/Model.glob Canon/Model.v.beautified Canon/Model.required_vo: Canon/Model.v 
 Canon/Model.vio: Canon/Model.v 
 Canon/Model.vos Canon/Model.vok Canon/Model.required_vos: Canon/Model.v 
+Conv/Model.vo Conv/Model.glob Conv/Model.v.beautified Conv/Model.required_vo: Conv/Model.v 
+Conv/Model.vio: Conv/Model.v 
+Conv/Model.vos Conv/Model.vok Conv/Model.required_vos: Conv/Model.v 
 Directors/Cases.vo Directors/Cases.glob Directors/Cases.v.beautified Directors/Cases.required_vo: Directors/Cases.v Directors/Model.vo
 Directors/Cases.vio: Directors/Cases.v Directors/Model.vio
 Directors/Cases.vos Directors/Cases.vok Directors/Cases.required_vos: Directors/Cases.v Directors/Model.vos
 Directors/Model.vo Directors/Model.glob Directors/Model.v.beautified Directors/Model.required_vo: Directors/Model.v Generated/C03_ErrorClasses.vo
 Directors/Model.vio: Directors/Model.v Generated/C03_ErrorClasses.vio
 Directors/Model.vos Directors/Model.vok Directors/Model.required_vos: Directors/Model.v Generated/C03_ErrorClasses.vos
+Directors/Proofs.vo Directors/Proofs.glob Directors/Proofs.v.beautified Directors/Proofs.required_vo: Directors/Proofs.v Generated/C03_ErrorClasses.vo Directors/Model.vo Directors/Spec.vo
+Directors/Proofs.vio: Directors/Proofs.v Generated/C03_ErrorClasses.vio Directors/Model.vio Directors/Spec.vio
+Directors/Proofs.vos Directors/Proofs.vok Directors/Proofs.required_vos: Directors/Proofs.v Generated/C03_ErrorClasses.vos Directors/Model.vos Directors/Spec.vos
+Directors/Spec.vo Directors/Spec.glob Directors/Spec.v.beautified Directors/Spec.required_vo: Directors/Spec.v Generated/C03_ErrorClasses.vo Directors/Model.vo
+Directors/Spec.vio: Directors/Spec.v Generated/C03_ErrorClasses.vio Directors/Model.vio
+Directors/Spec.vos Directors/Spec.vok Directors/Spec.required_vos: Directors/Spec.v Generated/C03_ErrorClasses.vos Directors/Model.vos
 Extract/ExtractBind.vo Extract/ExtractBind.glob Extract/ExtractBind.v.beautified Extract/ExtractBind.required_vo: Extract/ExtractBind.v Bind/Model.vo
 Extract/ExtractBind.vio: Extract/ExtractBind.v Bind/Model.vio
 Extract/ExtractBind.vos Extract/ExtractBind.vok Extract/ExtractBind.required_vos: Extract/ExtractBind.v Bind/Model.vos
 Extract/ExtractBlocks.vo Extract/ExtractBlocks.glob Extract/ExtractBlocks.v.beautified Extract/ExtractBlocks.required_vo: Extract/ExtractBlocks.v Blocks/Model.vo
 Extract/ExtractBlocks.vio: Extract/ExtractBlocks.v Blocks/Model.vio
 Extract/ExtractBlocks.vos Extract/ExtractBlocks.vok Extract/ExtractBlocks.required_vos: Extract/ExtractBlocks.v Blocks/Model.vos
+Extract/ExtractOpt.vo Extract/ExtractOpt.glob Extract/ExtractOpt.v.beautified Extract/ExtractOpt.required_vo: Extract/ExtractOpt.v Opt/Syntax.vo Generated/C11_Passes.vo Opt/Model.vo
+Extract/ExtractOpt.vio: Extract/ExtractOpt.v Opt/Syntax.vio Generated/C11_Passes.vio Opt/Model.vio
+Extract/ExtractOpt.vos Extract/ExtractOpt.vok Extract/ExtractOpt.required_vos: Extract/ExtractOpt.v Opt/Syntax.vos Generated/C11_Passes.vos Opt/Model.vos
 Extract/ExtractPlan.vo Extract/ExtractPlan.glob Extract/ExtractPlan.v.beautified Extract/ExtractPlan.required_vo: Extract/ExtractPlan.v Plan/Model.vo
 Extract/ExtractPlan.vio: Extract/ExtractPlan.v Plan/Model.vio
 Extract/ExtractPlan.vos Extract/ExtractPlan.vok Extract/ExtractPlan.required_vos: Extract/ExtractPlan.v Plan/Model.vos
+Extract/ExtractPrint.vo Extract/ExtractPrint.glob Extract/ExtractPrint.v.beautified Extract/ExtractPrint.required_vo: Extract/ExtractPrint.v Print/Model.vo
+Extract/ExtractPrint.vio: Extract/ExtractPrint.v Print/Model.vio
+Extract/ExtractPrint.vos Extract/ExtractPrint.vok Extract/ExtractPrint.required_vos: Extract/ExtractPrint.v Print/Model.vos
 Extract/ExtractReach.vo Extract/ExtractReach.glob Extract/ExtractReach.v.beautified Extract/ExtractReach.required_vo: Extract/ExtractReach.v Typegraph/Reach.vo
 Extract/ExtractReach.vio: Extract/ExtractReach.v Typegraph/Reach.vio
 Extract/ExtractReach.vos Extract/ExtractReach.vok Extract/ExtractReach.required_vos: Extract/ExtractReach.v Typegraph/Reach.vos
@@ -52,6 +73,12 @@ Generated/C11_Passes.vos Generated/C11_Passes.vok Generated/C11_Passes.required_
 Generated/C16_OpcodeFlags.vo Generated/C16_OpcodeFlags.glob Generated/C16_OpcodeFlags.v.beautified Generated/C16_OpcodeFlags.required_vo: Generated/C16_OpcodeFlags.v 
 Generated/C16_OpcodeFlags.vio: Generated/C16_OpcodeFlags.v 
 Generated/C16_OpcodeFlags.vos Generated/C16_OpcodeFlags.vok Generated/C16_OpcodeFlags.required_vos: Generated/C16_OpcodeFlags.v 
+Io/LineProofs.vo Io/LineProofs.glob Io/LineProofs.v.beautified Io/LineProofs.required_vo: Io/LineProofs.v Io/Model.vo
+Io/LineProofs.vio: Io/LineProofs.v Io/Model.vio
+Io/LineProofs.vos Io/LineProofs.vok Io/LineProofs.required_vos: Io/LineProofs.v Io/Model.vos
+Io/Model.vo Io/Model.glob Io/Model.v.beautified Io/Model.required_vo: Io/Model.v 
+Io/Model.vio: Io/Model.v 
+Io/Model.vos Io/Model.vok Io/Model.required_vos: Io/Model.v 
 Merge/Model.vo Merge/Model.glob Merge/Model.v.beautified Merge/Model.required_vo: Merge/Model.v 
 Merge/Model.vio: Merge/Model.v 
 Merge/Model.vos Merge/Model.vok Merge/Model.required_vos: Merge/Model.v 
@@ -70,15 +97,27 @@ Opt/Syntax.vos Opt/Syntax.vok Opt/Syntax.required_vos: Opt/Syntax.v
 Plan/Model.vo Plan/Model.glob Plan/Model.v.beautified Plan/Model.required_vo: Plan/Model.v 
 Plan/Model.vio: Plan/Model.v 
 Plan/Model.vos Plan/Model.vok Plan/Model.required_vos: Plan/Model.v 
+Print/Model.vo Print/Model.glob Print/Model.v.beautified Print/Model.required_vo: Print/Model.v 
+Print/Model.vio: Print/Model.v 
+Print/Model.vos Print/Model.vok Print/Model.required_vos: Print/Model.v 
 Props/C08.vo Props/C08.glob Props/C08.v.beautified Props/C08.required_vo: Props/C08.v Typegraph/History.vo Typegraph/HistoryProofs.vo Generated/C08_Invalidation.vo
 Props/C08.vio: Props/C08.v Typegraph/History.vio Typegraph/HistoryProofs.vio Generated/C08_Invalidation.vio
 Props/C08.vos Props/C08.vok Props/C08.required_vos: Props/C08.v Typegraph/History.vos Typegraph/HistoryProofs.vos Generated/C08_Invalidation.vos
 Props/C09.vo Props/C09.glob Props/C09.v.beautified Props/C09.required_vo: Props/C09.v Typegraph/Reach.vo Typegraph/ReachProofs.vo
 Props/C09.vio: Props/C09.v Typegraph/Reach.vio Typegraph/ReachProofs.vio
 Props/C09.vos Props/C09.vok Props/C09.required_vos: Props/C09.v Typegraph/Reach.vos Typegraph/ReachProofs.vos
+Props/C13.vo Props/C13.glob Props/C13.v.beautified Props/C13.required_vo: Props/C13.v Bind/Model.vo Bind/Proofs.vo
+Props/C13.vio: Props/C13.v Bind/Model.vio Bind/Proofs.vio
+Props/C13.vos Props/C13.vok Props/C13.required_vos: Props/C13.v Bind/Model.vos Bind/Proofs.vos
 Props/C17.vo Props/C17.glob Props/C17.v.beautified Props/C17.required_vo: Props/C17.v Booleq/Model.vo Booleq/Proofs.vo
 Props/C17.vio: Props/C17.v Booleq/Model.vio Booleq/Proofs.vio
 Props/C17.vos Props/C17.vok Props/C17.required_vos: Props/C17.v Booleq/Model.vos Booleq/Proofs.vos
+Props/C18.vo Props/C18.glob Props/C18.v.beautified Props/C18.required_vo: Props/C18.v Flow/Model.vo Flow/Proofs.vo
+Props/C18.vio: Props/C18.v Flow/Model.vio Flow/Proofs.vio
+Props/C18.vos Props/C18.vok Props/C18.required_vos: Props/C18.v Flow/Model.vos Flow/Proofs.vos
+Serial/Model.vo Serial/Model.glob Serial/Model.v.beautified Serial/Model.required_vo: Serial/Model.v 
+Serial/Model.vio: Serial/Model.v 
+Serial/Model.vos Serial/Model.vok Serial/Model.required_vos: Serial/Model.v 
 Typegraph/Graph.vo Typegraph/Graph.glob Typegraph/Graph.v.beautified Typegraph/Graph.required_vo: Typegraph/Graph.v 
 Typegraph/Graph.vio: Typegraph/Graph.v 
 Typegraph/Graph.vos Typegraph/Graph.vok Typegraph/Graph.required_vos: Typegraph/Graph.v 
